@@ -66,6 +66,7 @@ type Options struct {
 	Split           bool // also encode IFD0 / Exif / GPS as three separate TIFF blocks (CR3 CMT1/CMT2/CMT4)
 	Unbuffered      bool // file will be read through the unbuffered path: directories <= 85 entries, values <= 1024
 	PlainStrings    bool
+	FirstIFD        int // > 0: offset of IFD0 (the bytes between the TIFF header and it are padding)
 }
 
 // KnownMakes maps every spelling the library documents to the canonical make name.
@@ -466,6 +467,20 @@ type ExifFile struct {
 	Supported, OutOfLineDirs, EmbShort, EmbASCII, OutRational, Foreign int
 	FirstIFD                                                           int
 	Split                                                              [4]*Encoded // CMT1..CMT4 style encodings (Options.Split)
+	root                                                               *Dir
+}
+
+// Reencode lays the same record out again, writer-like (tables and values in first-in-first-out order, no padding),
+// with IFD0 at offset first: a deterministic function of the record, used for offset sweeps.
+func (f *ExifFile) Reencode(first int) *ExifFile {
+	g := *f
+	trailing := make([]byte, 64)
+	for i := range trailing {
+		trailing[i] = 0xEE
+	}
+	g.Enc = Encode(f.root, first, func([]bool) int { return 0 }, func() int { return 0 }, trailing)
+	g.FirstIFD = first
+	return &g
 }
 
 func sortEntries(d *Dir) {
@@ -728,6 +743,9 @@ func GenExif(rt *rapid.T, o Options) *ExifFile {
 	if Chance(rt, "firstifd?", 0.2) {
 		first = 8 + rapid.IntRange(1, 64).Draw(rt, "firstifd")
 	}
+	if o.FirstIFD > 0 {
+		first = o.FirstIFD
+	}
 	f.FirstIFD = first
 	padMode := rapid.IntRange(0, 2).Draw(rt, "padmode")
 	if o.BigPending || o.HeavyWriter {
@@ -782,6 +800,7 @@ func GenExif(rt *rapid.T, o Options) *ExifFile {
 	}
 	defer func() { SlotJunk = 0 }()
 	f.Enc = Encode(ifd0, first, pick, pad, trailing)
+	f.root = ifd0
 	if o.BigPending {
 		// Fill with foreign out-of-line tags until the reader's pending list peaks at
 		// an exact size at (or just below) the documented limit. Block order is
